@@ -23,6 +23,10 @@ def main():
     ap.add_argument("--tier", default=os.environ.get("VERIF_TIER", "quick"), choices=["quick", "thorough"])
     a = ap.parse_args()
     seed = int(os.environ.get("VERIF_SEED", "0") or 0)
+    if a.tier == "thorough":
+        # wall-time budget per explored configuration: a BFS that is still running after this many seconds stops at the
+        # next level boundary and reports the depth it completed (quick tier: no budget, every run completes)
+        os.environ.setdefault("VERIF_JOB_SECONDS", "600")
     os.chdir(HERE)
     from vlib.runner import Report
     prop = a.prop.upper()
